@@ -76,3 +76,95 @@ Definition only_gget_faults (l : list fev) : bool :=
 (* ---- crash invariant: no grant whose originating code still indexes a session ---- *)
 Definition no_code_twice (st : store) : Prop :=
   forall g s, In g (st_gsess st) -> In s (st_asess st) -> g_code g = a_code s -> a_code s = 0.
+
+(* ---- the storage-call sequence of each flow (DESIGN.md Appendix A), as a regular expression
+   over call kinds; a run under faults performs a prefix of a word of its flow ---- *)
+Definition ckind_eqb (a b : ckind) : bool := N.eqb (ckind_ix a) (ckind_ix b).
+Inductive re := Eps | Ch (k : ckind) | Seq (a b : re) | Alt (a b : re) | Opt (a : re)
+  | Cut (a : re).      (* any prefix of a word of a (a sub-flow that may stop early and hand over) *)
+(* a word of r, then kd; or a prefix of a word of r, then ks *)
+Fixpoint mcut (r : re) (l : list ckind) (kd ks : list ckind -> bool) : bool :=
+  match r with
+  | Eps => kd l
+  | Ch c => orb (ks l) (match l with x :: t => if ckind_eqb x c then kd t else false | [] => false end)
+  | Seq a b => mcut a l (fun l' => mcut b l' kd ks) ks
+  | Alt a b => orb (mcut a l kd ks) (mcut b l kd ks)
+  | Opt a => orb (kd l) (mcut a l kd ks)
+  | Cut a => mcut a l kd (fun l' => orb (ks l') (kd l'))
+  end.
+(* l is a prefix of a word of r followed by something k accepts; running out of input is accepted *)
+Fixpoint pre (r : re) (l : list ckind) (k : list ckind -> bool) : bool :=
+  match r with
+  | Eps => k l
+  | Ch c => match l with [] => true | x :: t => if ckind_eqb x c then k t else false end
+  | Seq a b => pre a l (fun l' => pre b l' k)
+  | Alt a b => orb (pre a l k) (pre b l k)
+  | Opt a => orb (k l) (pre a l k)
+  | Cut a => mcut a l k k
+  end.
+Definition is_prefix_of (r : re) (l : list ckind) : bool :=
+  pre r l (fun l' => match l' with [] => true | _ => false end).
+
+Fixpoint seqs (l : list re) : re := match l with [] => Eps | [a] => a | a :: t => Seq a (seqs t) end.
+Fixpoint alts (l : list re) : re := match l with [] => Eps | [a] => a | a :: t => Alt a (alts t) end.
+
+Definition cg : re := Opt (Ch KCGet).           (* ctx.Client: no storage call for a static client *)
+(* the three tails of authenticate: in progress (ASave), failure (ADel), success (client lookup,
+   then ASave of the code or ADel, then the implicit grant) *)
+Definition re_tail : re :=
+  alts [Ch KASave; Ch KADel; seqs [cg; Alt (Ch KASave) (Ch KADel); Opt (Ch KGSave)]].
+Definition flow_re (o : op) : re :=
+  match o with
+  | OpToken GAuthorizationCode _ => seqs [cg; Ch KAGet; Alt (Ch KGDelByCode) (Seq (Ch KADel) (Ch KGSave))]
+  | OpToken GRefreshToken _ => seqs [cg; Ch KGGet; Alt (Ch KGDel) (Ch KGSave)]
+  | OpToken GClientCredentials _ => seqs [cg; Ch KGSave]
+  | OpToken GCiba _ => seqs [cg; Ch KAGet; Ch KADel; Ch KGSave]
+  | OpToken _ _ => Eps
+  | OpIntrospect _ => seqs [cg; Ch KGGet]
+  | OpRevoke _ => seqs [cg; Ch KGGet; Ch KGDel]
+  | OpUserInfo _ => seqs [Ch KGGet; Ch KCGet]
+  | OpTokenInfo _ | OpTokenInfoReq _ => Ch KGGet
+  | OpPar _ | OpBcAuthorize _ => seqs [cg; Ch KASave]
+  | OpAuthorize _ => seqs [cg; Opt (Ch KAGet); re_tail]
+  (* a redirectable failure makes the callback endpoint load the client, and drop the session if
+     the client is gone *)
+  | OpCallback _ => seqs [Ch KAGet; Cut re_tail; cg; Opt (Ch KADel)]
+  | OpNotifyOk _ _ => seqs [Ch KAGet; cg; Ch KADel; Ch KGSave]
+  | OpNotifyFail _ => seqs [Ch KAGet; cg; Ch KADel]
+  | OpTick _ => Eps
+  end.
+Definition dcr_flow_re (o : dfop) : re :=
+  match o with
+  | DfCreate _ => Ch KCSave
+  | DfUpdate _ => seqs [cg; Ch KCSave]
+  | DfRead _ => cg
+  | DfDelete _ => seqs [cg; Ch KCDel]
+  end.
+
+(* every GSave of a run that consumes a one-time credential (authorization_code and CIBA grants,
+   CIBA push notification) comes immediately after a successful ADel of the id of a session that
+   a lookup of the same run returned *)
+Definition rok_reply (r : reply) : bool := match r with RFail => false | _ => true end.
+Fixpoint consume_then_issue (seen : list asession) (prev : option id) (tr : list (call * reply)) : bool :=
+  match tr with
+  | [] => true
+  | (c, r) :: t =>
+      let ok := match c with
+                | GSave g => match prev with
+                             | Some i => existsb (fun s => ideq (a_id s) i) seen
+                             | None => false end
+                | _ => true end in
+      let seen' := match r with RASess s => s :: seen | _ => seen end in
+      let prev' := match c with ADel i => if rok_reply r then Some i else None | _ => None end in
+      andb ok (consume_then_issue seen' prev' t)
+  end.
+(* ... and, for the authorization code grant, the grant records the code of that very session *)
+Fixpoint code_recorded (seen : list asession) (tr : list (call * reply)) : bool :=
+  match tr with
+  | [] => true
+  | (c, r) :: t =>
+      let ok := match c with
+                | GSave g => existsb (fun s => ideq (a_code s) (g_code g)) seen
+                | _ => true end in
+      andb ok (code_recorded (match r with RASess s => s :: seen | _ => seen end) t)
+  end.
